@@ -186,7 +186,91 @@ class NoPanic:
                         self._fmax[("roughenough::message::RtMessage", "values")] = n
             self.ctx.extra.setdefault("container_invariants", {})["roughenough::message::RtMessage.tags/values"] = \
                 "len <= %s (strictly ascending tags over the Tag enum)" % (self._fmax.get(("roughenough::message::RtMessage", "tags")),)
+            for (adt, field) in (("roughenough::merkle::MerkleTree", "levels"),):
+                n, why = self.guarded_growth_bound(adt, field)
+                if n is not None:
+                    self._fmax[(adt, field)] = n
+                self.ctx.extra.setdefault("container_invariants", {})["%s.%s (upper)" % (adt, field)] = "len <= %s: %s" % (n, why)
         return self._fmax
+
+    NONGROWING = ("clear", "truncate", "pop", "iter_mut", "index_mut", "deref_mut", "as_mut_slice", "as_mut", "get_mut", "last_mut", "first_mut", "swap",
+                  "sort", "sort_unstable", "sort_by", "sort_by_key", "reverse", "drain", "retain", "remove", "swap_remove", "shrink_to", "shrink_to_fit",
+                  "reserve", "reserve_exact", "into_iter", "chunks_mut", "split_at_mut", "fill", "dedup")
+
+    def guarded_growth_bound(self, adt, field):
+        """Upper bound on the length of a private Vec field that holds in every state: every constructor starts it with a known number of
+        elements, the only growing operation ever applied to the field itself is `push`, and each push site is guarded by facts from which the
+        prover bounds the length before the push (`if self.f.len() < e { self.f.push(..) }` with e bounded).  Returns (bound or None, why)."""
+        P, W = self.P, self.W
+        a = P.adts.get(adt)
+        if a is None:
+            return None, "unknown type"
+        fl = [x for x in a["variants"][0]["fields"] if x["name"] == field]
+        if not fl or fl[0]["vis"] == "pub":
+            return None, "field is public"
+        inits = []
+        for (fn, bb, idx, fields) in W.ctor_fields(adt):
+            t = fields.get(field)
+            n = None
+            if is_call(t) and callee_name(t[1]) == "from_elem" and t[2][1][0] == "int":
+                n = t[2][1][1]
+            elif is_call(t) and callee_name(t[1]) in ("new", "with_capacity", "default") and "Vec" in t[1]:
+                n = 0
+            elif is_call(t) and callee_name(t[1]) in ("box_assume_init_into_vec_unsafe", "into_vec"):
+                m = re.search(r"; (\d+)\]", P.fns[t[3][0]].blocks[t[3][1]].term["arg_tys"][0])
+                n = int(m.group(1)) if m else None
+            if n is None:
+                return None, "a constructor initialises the field with %s" % fmt(t)
+            inits.append(n)
+        if not inits:
+            return None, "no constructor found"
+        bound = max(inits)
+        npush = 0
+        for fn in P.fns.values():
+            if fn.derived:
+                continue
+            ev = None
+            for bl in fn.blocks:
+                if bl.idx not in fn.reachable():
+                    continue
+                for st in bl.stmts:
+                    if st["k"] != "assign":
+                        continue
+                    # assignment to the field itself
+                    pj = [e for e in st["dst"].get("p", []) if isinstance(e, dict) and "f" in e]
+                    if pj and pj[-1].get("name") == field and pj[-1].get("adt") == adt and st["dst"]["p"][-1] is pj[-1]:
+                        return None, "%s assigns the field" % fn.path
+                    rv = st["rv"]
+                    if rv["k"] in ("ref", "rawptr") and (rv.get("mut") or rv["k"] == "rawptr"):
+                        pl = rv["place"].get("p", [])
+                        if pl and isinstance(pl[-1], dict) and pl[-1].get("name") == field and pl[-1].get("adt") == adt:
+                            # `&mut x.field`: where does the borrow go?
+                            l = st["dst"]["l"]
+                            uses = [(b2, t2) for b2, t2 in fn.calls() if any((o.get("mv") or o.get("cp") or {}).get("l") == l and not (o.get("mv") or o.get("cp") or {}).get("p") for o in t2["args"])]
+                            if len(uses) != 1:
+                                return None, "%s takes `&mut %s` and uses it %d times" % (fn.path, field, len(uses))
+                            b2, t2 = uses[0]
+                            nm = callee_name(t2["fn"].get("path", ""))
+                            if nm in self.NONGROWING:
+                                continue
+                            if nm != "push":
+                                return None, "%s applies %s to the field" % (fn.path, nm)
+                            npush += 1
+                            ev = ev or W.ev(fn.path)
+                            B = Bounds(W, fn, ev, pre={})
+                            self.halving_loops(fn, B)
+                            best = None
+                            for b3, t3 in fn.calls():
+                                if callee_name(t3["fn"].get("path", "")) == "len" and fn.dominates(b3, b2):
+                                    lt = ev.call_term(b3)
+                                    if isinstance(lt, tuple) and lt[0] == "len" and isinstance(lt[1], tuple) and lt[1][0] == "field" and lt[1][2] == field:
+                                        u = B.upper(lt, b2)
+                                        if u != INF and (best is None or u < best):
+                                            best = u
+                            if best is None:
+                                return None, "the push in %s is not guarded by a bounded length test" % fn.path
+                            bound = max(bound, best + 1)
+        return bound, "every constructor starts with <= %d element(s); the %d push site(s) are guarded by a length test the prover bounds; nothing else grows the field" % (max(inits), npush)
 
     def closure_param_axioms(self, fn):
         """A closure handed to an iterator adaptor over `slice.chunks_exact(n)` receives slices of exactly n elements (`chunks(n)`:
@@ -259,6 +343,41 @@ class NoPanic:
             if p in covered:
                 continue
             self.scan(P.fns[p])
+        # a helper that did not exist on the reference tree is inlined into each of its callers: the copies of one helper site are one site.
+        # Where one copy is covered by an audited entry (whose justification is a set of program-wide facts, re-checked on this run), the other
+        # copies are covered by the same entry.
+        by_origin = {}
+        for r in self.records:
+            if r.get("origin") and r["status"] == "audited":
+                by_origin.setdefault(r["origin"], r)
+        open_helpers = {r["origin"][0] for r in self.records if r.get("origin") and r["status"] == "open" and r["origin"] not in by_origin}
+        if open_helpers:
+            # the copy that carries the audited entry may sit in a reference function that is no longer called from the entry points (it became
+            # a wrapper that only other code uses): look at every other function the same helper was inlined into
+            shadow_fns = [p for p, hs in P.inlined.items() if p not in reach and p in P.fns and open_helpers & set(hs)]
+            main_records, self.records = self.records, []
+            used0 = set(getattr(self, "used_audits", ()))
+            for p in shadow_fns:
+                fn = P.fns[p]
+                pre = self.compute_pre(fn)
+                B = Bounds(self.W, fn, self.W.ev(p), pre=pre)
+                B.field_min_len = self.field_invariants
+                B.field_max_len = self.field_max_invariants()
+                self.bounds[p] = B
+                self.pre[p] = pre
+                self.cursor_model(fn, B)
+                self.halving_loops(fn, B)
+                self.scan(fn)
+            for r in self.records:
+                if r.get("origin") and r["status"] == "audited":
+                    by_origin.setdefault(r["origin"], r)
+            self.shadow_records = self.records
+            self.records = main_records
+        for r in self.records:
+            if r.get("origin") and r["status"] == "open" and r["origin"] in by_origin:
+                a = by_origin[r["origin"]]
+                r["status"] = "audited"
+                r["detail"] = "same site as %s (%s, a helper inlined into several callers): %s" % (a["key"], r["origin"][0].split("::")[-1], a["detail"])
         return self.records
 
     def recursive_pre(self, fn, B):
@@ -507,6 +626,9 @@ class NoPanic:
         if n:
             key = "%s#%d" % (key, n + 1)
         rec = {"key": key, "fn": fn.path, "bb": bb, "kind": kind, "status": status, "detail": detail, "loc": fn.loc(bb), "trivial": trivial}
+        og = fn.blocks[bb].term.get("origin")
+        if og:
+            rec["origin"] = (og[0], og[1], kind)
         if status == "open" and str(fn.blocks[bb].term.get("mac", "")).startswith("debug_assert"):
             # debug_assert!/debug_assert_eq!/.. (and the arithmetic inside their conditions): compiled only under cfg(debug_assertions).  They are
             # the author's statement of an invariant, not behaviour of the shipped (release) server; what could not be proved is assumed and counted.
@@ -756,6 +878,30 @@ class NoPanic:
                     return False        # the length of a place, not of a value: may have changed
         return True
 
+    def upper_from_index(self, fn, B, b, term):
+        """Upper bound of `term` at block b from a dominating `container[term]` that did not panic (so term < len(container)), when the
+        container's length has a known upper bound and term's value cannot have changed in between."""
+        ev = B.ev
+        best = INF
+        if not isinstance(term, tuple) or term[0] == "int":
+            return best
+        for b1, t1 in fn.calls():
+            if b1 == b or t1["fn"].get("trait") not in ("core::ops::index::Index", "core::ops::index::IndexMut") or not fn.dominates(b1, b):
+                continue
+            if "usize" not in (t1.get("arg_tys") or ["", ""])[1] or "Range" in t1["arg_tys"][1]:
+                continue
+            a1 = ev.call_args(b1)
+            if len(a1) != 2 or a1[1] != term:
+                continue
+            btw = B._between(b1, b)
+            if btw is None or not self._terms_stable(fn, [term], btw):
+                continue
+            n = array_len(t1["arg_tys"][0])
+            u = n if n is not None else B.upper(("len", a1[0]), b1)
+            if u != INF:
+                best = min(best, u - 1)
+        return best
+
     def reindexed(self, fn, B, b, base, idx):
         """`c[i]` where every path here has already passed `c[i]` with the same index value and c cannot have shrunk since."""
         ev = B.ev
@@ -819,6 +965,13 @@ class NoPanic:
                 return self.rec(fn, b, kind, desc, "proved", "the same checked operation on the same values succeeded at %s, which every path here passes" % fn.loc(prev))
             if self.stats_counter(fn, b, a, c):
                 return self.rec(fn, b, kind, desc, "typed", "statistics counter increment (assumption: a counter does not wrap within a window)")
+            if op in ("Add", "Mul"):
+                # a value that has just been used as an index without panicking is below that container's length
+                ia, ic = self.upper_from_index(fn, B, b, a), self.upper_from_index(fn, B, b, c)
+                ua, uc = min(B.upper(a, b), ia), min(B.upper(c, b), ic)
+                if (ia != INF or ic != INF) and B.lower(a, b) >= 0 and B.lower(c, b) >= 0 and INF not in (ua, uc) and \
+                        ((op == "Add" and ua + uc <= rng[1]) or (op == "Mul" and ua * uc <= rng[1])):
+                    return self.rec(fn, b, kind, desc, "proved", "an operand was used as an index on every path here, so it is below that container's length: %s %s %s <= %s" % (ua, "+" if op == "Add" else "*", uc, rng[1]))
             if op == "Add":
                 ua, uc = B.upper(a, b), B.upper(c, b)
                 if ua + uc <= rng[1] and B.lower(a, b) + B.lower(c, b) >= rng[0]:
